@@ -21,7 +21,7 @@ ASSUMPTIONS = [
 MANIFEST = {'text': 'structural necessary conditions: matches() can only return false (disabled), negated or !negated and treats a missing extended header as a failed criterion; '
                     'every criterion field matched on is serialised and every serialised key is parsed back; the case-insensitive literal matcher exists only under the ignore-case flag.'
                     ' Added: no default is substituted for an unspecified criterion; the short JSON form of the message-type criterion is written only for the mask it is reloaded with; scratch buffers of the text front-ends are re-initialised between two ids. Added: text taken from the input reaches the filter verbatim in every front-end (no trim / case folding / replace in the provenance of a text sink). Added: the compiled matcher of a literal ignore-case payload is built from regex::escape(text).',
-            'technique': 'static analysis: MIR return-value census, read-set / string-key table agreement, control-dependence (dominating guard) check Added: list criteria (lifecycles) are tested by order-independent membership in matches() (no binary search / first / last on a list whose order the configuration decides). Added: the regex-character predicate shared by all auto-detecting front-ends answers true for every operator of the regex syntax (decided by constant interpretation per character).'}
+            'technique': 'static analysis: MIR return-value census, read-set / string-key table agreement, control-dependence (dominating guard) check Added: list criteria (lifecycles) are tested by order-independent membership in matches() (no binary search / first / last on a list whose order the configuration decides). Added: the regex-character predicate shared by all auto-detecting front-ends answers true for every operator of the regex syntax (decided by constant interpretation per character). Added: the payload criterion is decided on the decoded text only - matches() reads the raw payload of the message nowhere. Added: an auto-detected regex flag is computed per id text (a flag local fed by contains_regex_chars is not carried from one ECU / APID / CTID part to the next).'}
 
 FILTER = 'adlt::filter::filter_impl::Filter'
 DERIVED = {'payload_as_regex': 'cache derived from payload + ignore_case_payload'}
@@ -86,6 +86,10 @@ def run(F, chk):
     check_autodetect_only_when_absent(F, F8)
     F9 = chk.rule('F9', 'the regex compiled for a *literal* payload (ignore-case matcher `payload_as_regex`) is built from regex::escape(text)')
     check_literal_regex_escaped(F, F9)
+    F13 = chk.rule('F13', 'front-ends: an auto-detected regex flag belongs to the one id text it was computed from - a flag local fed by contains_regex_chars is (re)initialised inside the loop pass that uses it (not carried from an earlier ECU / APID / CTID part to a later one)')
+    check_regex_flag_scope(F, F13)
+    F12 = chk.rule('F12', 'matches() decides the payload criterion on the decoded text (payload_as_text / payload_text) only: it never looks at the raw payload bytes or their length (the decoded text of numbers, control messages, non-verbose data is longer than the bytes)')
+    check_payload_on_text(F, m, F12)
     F11 = chk.rule('F11', 'regex auto-detection: the predicate all front-ends use to decide "this id / payload text is a regular expression" answers true for every operator of the regex syntax ( \\ . + * ? ( ) | [ ] { } ^ $ ), decided by constant interpretation of the predicate for each character')
     check_regex_char_predicate(F, F11)
     F10 = chk.rule('F10', 'matches() tests a list criterion (lifecycles) by order-independent membership: no binary search / partition / first / last on a list of the filter (its order is whatever the configuration gave)')
@@ -96,6 +100,84 @@ HELPERS_OF_MATCHES = []
 
 ORDER_ASSUMING = re.compile(r'::(binary_search|binary_search_by|binary_search_by_key|partition_point|first|last|split_first|split_last|is_sorted|is_sorted_by|is_sorted_by_key|dedup)$')
 MEMBERSHIP = re.compile(r'::(contains|iter|is_empty|len|into_iter|as_slice|deref|as_ref|any|all)$')
+
+
+def check_regex_flag_scope(F, F13):
+    """"decides identically whether it was loaded from JSON .. or an ECU:APID:CTID expression": each id of the expression is a
+    literal or a regex on its own.  When the parts are handled in a loop with one `is_regex` local that is only ever set, a
+    regex in the ECU part makes the later literal APID / CTID unanchored regexes (`AP` then matches `XAP1`)."""
+    from prov import Prov, calls_in
+    n = 0
+    for b in F.order:
+        if b.crate not in ('lib', 'bin') or '::tests::' in b.path:
+            continue
+        calls = [blk for blk in b.calls() if blk.term.callee.path.endswith('Char4OrRegex::from_str') and len(blk.term.args) >= 2]
+        if not calls:
+            continue
+        cfg = CFG(b)
+        pr = None
+        loops = cfg.loops()
+        for blk in calls:
+            n += 1
+            F13.sites += 1
+            F13.fn(b.path)
+            flag = blk.term.args[1]
+            bad = None
+            if flag.place is not None and flag.place.is_local and not flag.place.p:
+                # follow plain copies to the named flag local
+                l = flag.place.l
+                for _ in range(4):
+                    sd = cfg.single_def(l)
+                    if sd is not None and sd[1] != 'call' and sd[2].rv['k'] == 'use' and Operand(sd[2].rv['o']).place is not None and not Operand(sd[2].rv['o']).place.p:
+                        l = Operand(sd[2].rv['o']).place.l
+                    else:
+                        break
+                defs = cfg.defs.get(l, [])
+                inner = [lb for lb in loops.values() if blk.i in lb]
+                if len(defs) > 1 and inner:
+                    lb = min(inner, key=len)
+                    pr = pr or Prov(cfg)
+                    fed = any(c.endswith('contains_regex_chars') for c in calls_in(pr.operand(flag, at=blk.i))) or \
+                        any(any(c_[0] is not None and 'contains_regex_chars' in show(c_[0]) for c_ in guards.known(cfg, ExprBuilder(cfg, fold_named=True), bi)) for (bi, si, d) in defs)
+                    outside = [bi for (bi, si, d) in defs if bi not in lb]
+                    if fed and outside:
+                        bad = b.loc(b.blocks[outside[0]].term.sp)
+            if bad:
+                F13.violation(('regex-flag-carried-across-ids', b.closure_of or b.path), '%s passes to Char4OrRegex::from_str at %s a flag that is fed by contains_regex_chars inside the loop but initialised outside it (%s): once one id part looks like a regex every later literal part is compiled as an unanchored regex' %
+                              (b.path, b.loc(blk.term.sp), bad), where=b.loc(blk.term.sp))
+            else:
+                F13.ok(sample={'from_str_at': b.loc(blk.term.sp), 'flag': 'computed per id'})
+    F13.floor('Char4OrRegex::from_str calls in the front-ends', n, 4)
+
+
+def check_payload_on_text(F, m, F12):
+    """"payload substring": the criterion is defined on the text the message renders to.  A shortcut on the raw bytes (`payload.len()
+    < needle.len()` cannot match) is wrong for every message whose text is longer than its bytes - 4 raw bytes render as
+    "4294967295", a 12 byte control response as "[get_software_version ok] ..".  Who-may-read rule: matches() and its
+    helpers read the DltMessage field `payload` nowhere."""
+    import json
+    n = 0
+    bodies = [m] + list(HELPERS_OF_MATCHES) + list(F.closures_of(m.path))
+    textual = 0
+    for b in bodies:
+        F12.fn(b.path)
+        for blk in b.blocks:
+            if blk.cleanup:
+                continue
+            for s_ in blk.stmts:
+                if s_.k == 'assign' and re.search(r'"n": "payload", "o": "adlt::dlt::DltMessage"', json.dumps(s_.d)):
+                    n += 1
+                    F12.violation(('payload-criterion-on-raw-bytes', b.path), '%s reads the raw payload of the message at %s: the payload criterion holds or fails by the decoded text, whose length and content differ from the bytes' % (b.path, b.loc(s_.sp)), where=b.loc(s_.sp))
+            if blk.term.k == 'call':
+                if any(re.search(r'"n": "payload", "o": "adlt::dlt::DltMessage"', json.dumps(a.d)) for a in blk.term.args if hasattr(a, 'd')):
+                    n += 1
+                    F12.violation(('payload-criterion-on-raw-bytes', b.path), '%s hands the raw payload of the message to %s at %s' % (b.path, blk.term.callee.path, b.loc(blk.term.sp)), where=b.loc(blk.term.sp))
+                if blk.term.callee.path.endswith('DltMessage::payload_as_text'):
+                    textual += 1
+    F12.sites += textual + n
+    F12.floor('payload_as_text() calls in matches()', textual, 1)
+    if n == 0:
+        F12.ok(sample={'payload_criterion': 'decided on payload_as_text() only', 'payload_as_text_calls': textual})
 
 
 REGEX_OPERATORS = '\\.+*?()|[]{}^$'
